@@ -192,12 +192,54 @@ func EdgeDominates(from *ssa.BasicBlock, idx int, target *ssa.BasicBlock) bool {
 // DominatedByNil reports whether block b is only reachable when v was tested == nil (wantNil)
 // or != nil (!wantNil).
 func DominatedByNil(v ssa.Value, b *ssa.BasicBlock, wantNil bool) bool {
+	return dominatedByNil(v, b, wantNil, 0)
+}
+
+func dominatedByNil(v ssa.Value, b *ssa.BasicBlock, wantNil bool, depth int) bool {
 	for _, t := range NilTestsOf(v) {
 		idx := t.NilSucc
 		if !wantNil {
 			idx = 1 - idx
 		}
 		if EdgeDominates(t.If.Block(), idx, b) {
+			return true
+		}
+	}
+	if !wantNil || depth > 3 || v.Referrers() == nil {
+		return false
+	}
+	// errors merged into one variable and tested once (err = f(); if err == nil { err = g() }; if err != nil { return }):
+	// on the nil edge of the merged value p, v is nil when every way into p either carries v itself, or comes from a
+	// place where v is already known nil, or is an edge that is only taken when the value it carries is not nil
+	for _, r := range *v.Referrers() {
+		p, ok := r.(*ssa.Phi)
+		if !ok || !dominatedByNil(p, b, true, depth+1) {
+			continue
+		}
+		all := true
+		for j, w := range p.Edges {
+			if w == v {
+				continue
+			}
+			pred := p.Block().Preds[j]
+			if dominatedByNil(v, pred, true, depth+1) {
+				continue
+			}
+			// the edge pred -> phi block is the not-nil edge of a test of w: it cannot carry a nil w
+			contradicts := false
+			for _, t := range NilTestsOf(w) {
+				if t.If.Block() == pred && pred.Succs[1-t.NilSucc] == p.Block() && pred.Succs[0] != pred.Succs[1] {
+					contradicts = true
+				} else if EdgeDominates(t.If.Block(), 1-t.NilSucc, pred) {
+					contradicts = true
+				}
+			}
+			if !contradicts {
+				all = false
+				break
+			}
+		}
+		if all {
 			return true
 		}
 	}
@@ -672,4 +714,93 @@ func (p *Program) NewFunctionsIn(baseline map[string]bool, prefixes map[string]b
 	p.Queried = q
 	sort.Strings(out)
 	return out
+}
+
+// EqCond: v as an equality test. `x == y` is equal on the true edge (successor 0), `x != y` on the false edge
+// (successor 1); eq is the index of the successor taken when the operands are equal, 1-eq the other one. Rules that
+// look for "the arm where x equals K" use it so that an inverted test with swapped arms reads the same.
+func EqCond(v ssa.Value) (bo *ssa.BinOp, eq int, ok bool) {
+	bo, ok = v.(*ssa.BinOp)
+	if !ok {
+		return nil, 0, false
+	}
+	switch bo.Op {
+	case token.EQL:
+		return bo, 0, true
+	case token.NEQ:
+		return bo, 1, true
+	}
+	return nil, 0, false
+}
+
+// EqBranch: EqCond of the condition block b branches on.
+func EqBranch(b *ssa.BasicBlock) (bo *ssa.BinOp, eq int, ok bool) {
+	if len(b.Instrs) == 0 {
+		return nil, 0, false
+	}
+	iff, isIf := b.Instrs[len(b.Instrs)-1].(*ssa.If)
+	if !isIf {
+		return nil, 0, false
+	}
+	return EqCond(iff.Cond)
+}
+
+// ZeroEdge: cond as an emptiness test of a non-negative quantity x (a len): the successor index taken when x is zero.
+// x == 0, x <= 0, x < 1 are zero on the true edge; x != 0, x > 0, x >= 1 on the false edge (also with the operands swapped).
+func ZeroEdge(cond ssa.Value) (x ssa.Value, idx int, ok bool) {
+	bo, isBo := cond.(*ssa.BinOp)
+	if !isBo {
+		return nil, 0, false
+	}
+	op, l, r := bo.Op, bo.X, bo.Y
+	if _, isK := ConstIntValue(l); isK {
+		// K op x  ==  x op' K
+		l, r = r, l
+		switch op {
+		case token.LSS:
+			op = token.GTR
+		case token.LEQ:
+			op = token.GEQ
+		case token.GTR:
+			op = token.LSS
+		case token.GEQ:
+			op = token.LEQ
+		}
+	}
+	k, isK := ConstIntValue(r)
+	if !isK {
+		return nil, 0, false
+	}
+	switch {
+	case k == 0 && (op == token.EQL || op == token.LEQ), k == 1 && op == token.LSS:
+		return l, 0, true
+	case k == 0 && (op == token.NEQ || op == token.GTR), k == 1 && op == token.GEQ:
+		return l, 1, true
+	}
+	return nil, 0, false
+}
+
+// DominatedByTrue: block b is executed only when the boolean value v was true: it is dominated by the true edge of a
+// branch on v, by the false edge of a branch on !v, or (v && w lowered into control flow) v is tested on the way.
+func DominatedByTrue(v ssa.Value, b *ssa.BasicBlock) bool {
+	if v.Referrers() == nil {
+		return false
+	}
+	for _, r := range *v.Referrers() {
+		switch t := r.(type) {
+		case *ssa.If:
+			if EdgeDominates(t.Block(), 0, b) {
+				return true
+			}
+		case *ssa.UnOp:
+			if t.Op == token.NOT && t.Referrers() != nil {
+				for _, r2 := range *t.Referrers() {
+					if iff, ok := r2.(*ssa.If); ok && EdgeDominates(iff.Block(), 1, b) {
+						return true
+					}
+				}
+			}
+		}
+	}
+	return false
 }
